@@ -290,6 +290,8 @@ type Exec struct {
 	executedInPlace map[*ssa.Function]bool
 	exclusions      map[string]Term
 	loopMaps        []*types.Map // map types updated in the loop being entered (scratch of loopEffects)
+	loopOwnCode     bool         // the loop body runs own code with undeclared heap effects (scratch of loopEffects)
+	loopMods        []string     // declared frames of the own callees of the loop body (scratch of loopEffects)
 	fvCells         map[string]*Cell
 	fvPtrs          map[*ssa.FreeVar]Val
 	immutKeys       map[string]bool
@@ -460,8 +462,17 @@ func (x *Exec) havocHeap(st *State, why string) {
 		ref Term
 		old Term
 	}
+	// Only code that is foreign to the verified package is kept out of private
+	// objects: a havoc that stands for the package's own code (a callee
+	// without a frame, a loop body, invocations of one of its closures) may
+	// have written to them.
+	foreign := strings.HasPrefix(why, "foreign call") || why == "consumer" || why == "go" || why == "bodyless" || why == "clear"
+	privRefs := x.privateRefs
+	if !foreign {
+		privRefs = nil
+	}
 	var keeps []keep
-	for _, pr := range x.privateRefs {
+	for _, pr := range privRefs {
 		si := x.te.Struct(pr.T)
 		for i := range si.Acc {
 			key, sort := x.fieldComp(si, i)
@@ -486,7 +497,7 @@ func (x *Exec) havocHeap(st *State, why string) {
 			}
 		}
 	}
-	for _, pr := range x.privateRefs {
+	for _, pr := range privRefs {
 		si := x.te.Struct(pr.T)
 		for i, ft := range si.FTypes {
 			key, sort := x.fieldComp(si, i)
@@ -523,7 +534,7 @@ func (x *Exec) havocHeap(st *State, why string) {
 	st.epoch = fmt.Sprintf("%d", x.epochN)
 	st.modEpoch = nil
 	for c := range st.esc {
-		if x.privateCell(c) {
+		if foreign && x.privateCell(c) {
 			// declared `private`: only calls handed its address directly change it
 			continue
 		}
